@@ -390,8 +390,27 @@ def size_pool(pl, block=B_REAL):
                    2 * pl - 1, 2 * pl, 2 * pl + 1, 3 * pl, 3 * pl + block + 7, 4 * pl, 5 * pl - block})
 
 
+def dedupe(node):
+    """drop later entries whose name repeats in a directory (generator hygiene: wf_node needs distinct names)"""
+    if node[0] == "F":
+        return node
+    seen, es = set(), []
+    for n, c in node[1]:
+        if n not in seen:
+            seen.add(n)
+            es.append((n, dedupe(c)))
+    return D(es)
+
+
 def gen_node(rng, pl, flavour, budget, block=B_REAL):
-    """a content tree of the given flavour with total size <= budget; returns node"""
+    """a content tree of the given flavour with about budget bytes at most (distinct names per directory, >= 1 file)"""
+    node = dedupe(_gen_node(rng, pl, flavour, budget, block))
+    if not files_of(node):
+        node = D(node[1] + [["a", F(1, "only")]])
+    return node
+
+
+def _gen_node(rng, pl, flavour, budget, block=B_REAL):
     pool = [s for s in size_pool(pl, block) if s <= budget]
     salt_n = [0]
 
